@@ -1,14 +1,20 @@
 /- Driver/C02.lean — line-protocol driver for the C02 check: the shared identity machine with the
-   configuration extracted into Generated/C02.lean (core: Model/C01Driver.lean), run through the fault layer of
-   Model/C02Fault.lean: one more kernel input line
+   configuration extracted into Generated/C02.lean, run through the fault layer of Model/C02Fault.lean over the BYTES
+   of /proc/<pid>/stat with the extracted reader (Model/C02Stat.lean: `stepFB = stepF ∘ view`; line parsing shared
+   with C01: Model/C01StatDriver.lean).  Kernel input lines on top of Model/C01Driver.lean's:
 
      {"op":"fault","pid":p,"on":bool}      reads of /proc/p/stat start / stop failing with a transient OSError
+     {"op":"spawn","pid":p, "comm":hex, "letter":n, "ppid":n, "pre":[17 ints], "post":[ints]}   (keys after pid optional)
+     {"op":"stat","pid":p, …same keys…}     the line of the listed process changes (prctl(PR_SET_NAME), exec, counters, …)
 
-   (further keys of that line — which errno, at open() or at read() — are the harness's business).  With no faulty PID
-   every line is answered exactly as Model/C01Driver.lean answers it.  A call that the transient error leaves is
-   answered {"kind":"exc","exc":"OSError"}; the SPEC of `is_running` then carries "may_raise": true — the answer may
-   be withheld while reads of the object's PID fail, but an answer that is given must be the one under "bool". -/
-import PsutilModel.Model.C01Driver
+   (further keys of the fault line — which errno, at open() or at read() — are the harness's business; omitted keys of a
+   spawn / stat line = the line the harness has always written).  With no faulty PID and default lines every line is
+   answered exactly as Model/C01Driver.lean answers it.  A call that the transient error leaves is answered
+   {"kind":"exc","exc":"OSError"}; the SPEC of `is_running` then carries "may_raise": true — the answer may be withheld
+   while reads of the object's PID fail, but an answer that is given must be the one under "bool".  The SPEC is computed
+   on the kernel's own table (`FStB.toFSt`: bytes forgotten) and never looks at a command name; a line the extracted
+   reader cannot parse is answered {"kind":"no_prediction"}. -/
+import PsutilModel.Model.C01StatDriver
 import PsutilModel.Model.C02Gen
 open Lean Psutil Psutil.Proto Psutil.C01 Psutil.C01.Drv Psutil.C02
 
@@ -27,20 +33,28 @@ def specF (fs : FSt) : Ev → Json
     | none => jObj []
   | ev => specOf fs.st ev
 
-def handleF (fs : FSt) (j : Json) : R (FSt × Json) := do
+def jOutFB : Option OutF → Json
+  | some o => jOutF o
+  | none => jObj [("kind", "no_prediction")]
+
+def handleFB (fs : FStB) (j : Json) : R (FStB × Json) := do
   let op ← strF j "op"
   if op == "reset" then
-    return (FSt.init (← natF j "btime"), ok (Json.str "reset"))
+    return (FStB.init (← natF j "btime"), ok (Json.str "reset"))
   if op == "pairs" then
-    return (fs, pairs fs.st)
+    return (fs, pairs fs.sb.toSt)
   if op == "fault" then
-    let r := fs.step Psutil.C02.cfg statFault (.fault (← natF j "pid") (← boolF j "on"))
-    return (r.1, jObj [("model", jObj [("out", jOutF r.2), ("eff", jList jEff [])]), ("spec", jObj [])])
-  let ev ← parseEv j
-  let spec := specF fs ev
-  let r := fs.step Psutil.C02.cfg statFault (.ev ev)
-  let s' := r.1.st
-  let newEff := (s'.log.take (s'.log.length - fs.st.log.length)).reverse
-  return (r.1, jObj [("model", jObj [("out", jOutF r.2), ("eff", jList jEff newEff)]), ("spec", spec)])
+    let r := fs.step scfg Psutil.C02.cfg statFault (.fault (← natF j "pid") (← boolF j "on"))
+    return (r.1, jObj [("model", jObj [("out", jOutFB r.2), ("eff", jList jEff [])]), ("spec", jObj [])])
+  let ev ← parseEvB j
+  let spec := specF fs.toFSt ev.erase
+  let r := fs.step scfg Psutil.C02.cfg statFault (.ev ev)
+  let s' := r.1.sb
+  let newEff := (s'.log.take (s'.log.length - fs.sb.log.length)).reverse
+  let wf : List (String × Json) :=
+    match ev with
+    | .k (.spawn _ _ aux) | .k (.rewrite _ _ aux) => [("line_wf", Json.bool (decide aux.WF))]
+    | _ => []
+  return (r.1, jObj ([("model", jObj [("out", jOutFB r.2), ("eff", jList jEff newEff)]), ("spec", spec)] ++ wf))
 
-def main : IO Unit := Proto.run (FSt.init 1) (total handleF)
+def main : IO Unit := Proto.run (FStB.init 1) (total handleFB)
